@@ -3,6 +3,7 @@
 #include "../../../../common/debug.h"
 #include "../../../../common/type_alias.h"
 #include <algorithm>
+#include <cctype>
 #include <iostream>
 #include <map>
 #include <memory>
@@ -214,7 +215,20 @@ void cache_instance(const std::string &cache_key,
 // キャッシュをクリア
 void clear_cache() { instantiation_cache.clear(); }
 
+// 子ノードのベクタを深くコピー
+static void clone_ast_vector(const std::vector<std::unique_ptr<ASTNode>> &src,
+                             std::vector<std::unique_ptr<ASTNode>> &dst) {
+    dst.reserve(src.size());
+    for (const auto &child : src) {
+        dst.push_back(clone_ast_node(child.get()));
+    }
+}
+
 // ASTノードを深くコピー
+// NOTE: ASTNode (src/common/ast.h) にフィールドを追加したら、ここと
+// substitute_type_parameters() の両方に追加すること。コピーし忘れた子ノードは
+// インスタンス化された関数本体では nullptr になり、実行時にクラッシュや
+// 無限ループを引き起こす（例: 三項演算子の third、for文の update_expr）。
 std::unique_ptr<ASTNode> clone_ast_node(const ASTNode *node) {
     if (!node) {
         return nullptr;
@@ -230,74 +244,200 @@ std::unique_ptr<ASTNode> clone_ast_node(const ASTNode *node) {
         return nullptr;
     }
 
-    // 基本フィールドをコピー
-    cloned->name = node->name;
-    cloned->op = node->op;
-    cloned->int_value = node->int_value;
-    cloned->double_value = node->double_value;
-    cloned->str_value = node->str_value;
-    cloned->type_name = node->type_name;
+    // 型・位置情報
     cloned->type_info = node->type_info;
-    cloned->return_type_name = node->return_type_name;
-    cloned->is_unsigned = node->is_unsigned;
+    cloned->location = node->location;
+
+    // ストレージ属性
     cloned->is_const = node->is_const;
     cloned->is_static = node->is_static;
-    cloned->is_pointee_const_qualifier = node->is_pointee_const_qualifier;
+    cloned->is_impl_static = node->is_impl_static;
+    cloned->is_array = node->is_array;
+    cloned->is_array_return = node->is_array_return;
+    cloned->is_private_method = node->is_private_method;
+    cloned->is_async = node->is_async;
+    cloned->is_private_member = node->is_private_member;
+    cloned->is_default_member = node->is_default_member;
     cloned->is_pointer = node->is_pointer;
     cloned->pointer_depth = node->pointer_depth;
     cloned->pointer_base_type_name = node->pointer_base_type_name;
-    cloned->is_array = node->is_array;
+    cloned->pointer_base_type = node->pointer_base_type;
     cloned->is_reference = node->is_reference;
+    cloned->is_rvalue_reference = node->is_rvalue_reference;
+    cloned->is_unsigned = node->is_unsigned;
+    cloned->is_function_address = node->is_function_address;
+    cloned->function_address_name = node->function_address_name;
+
+    // 値・名前
+    cloned->int_value = node->int_value;
+    cloned->double_value = node->double_value;
+    cloned->quad_value = node->quad_value;
+    cloned->is_float_literal = node->is_float_literal;
+    cloned->literal_type = node->literal_type;
+    cloned->literal_text = node->literal_text;
+    cloned->str_value = node->str_value;
+    cloned->name = node->name;
+    cloned->type_name = node->type_name;
+    cloned->original_type_name = node->original_type_name;
+    cloned->return_type_name = node->return_type_name;
+    cloned->op = node->op;
+
+    // 子ノードを再帰的にコピー
+    cloned->left = clone_ast_node(node->left.get());
+    cloned->right = clone_ast_node(node->right.get());
+    cloned->third = clone_ast_node(node->third.get());
+    cloned->condition = clone_ast_node(node->condition.get());
+    cloned->init_expr = clone_ast_node(node->init_expr.get());
+    cloned->update_expr = clone_ast_node(node->update_expr.get());
+    cloned->body = clone_ast_node(node->body.get());
+
+    // リスト（子ノード群）
+    clone_ast_vector(node->children, cloned->children);
+    clone_ast_vector(node->parameters, cloned->parameters);
+    clone_ast_vector(node->arguments, cloned->arguments);
+    clone_ast_vector(node->statements, cloned->statements);
+
+    // 配列関連
+    cloned->array_size = node->array_size;
+    cloned->array_index = clone_ast_node(node->array_index.get());
+    cloned->array_size_expr = clone_ast_node(node->array_size_expr.get());
+    clone_ast_vector(node->array_dimensions, cloned->array_dimensions);
+    cloned->array_type_info = node->array_type_info;
+    clone_ast_vector(node->array_indices, cloned->array_indices);
+    cloned->is_pointer_array_access = node->is_pointer_array_access;
+
+    // モジュール関連
+    cloned->module_name = node->module_name;
+    cloned->import_items = node->import_items;
+    cloned->import_aliases = node->import_aliases;
+    cloned->is_exported = node->is_exported;
+    cloned->is_default_export = node->is_default_export;
+    cloned->import_path = node->import_path;
+
+    // 例外処理関連
+    cloned->try_body = clone_ast_node(node->try_body.get());
+    cloned->catch_body = clone_ast_node(node->catch_body.get());
+    cloned->finally_body = clone_ast_node(node->finally_body.get());
+    cloned->throw_expr = clone_ast_node(node->throw_expr.get());
+    cloned->exception_var = node->exception_var;
+    cloned->exception_type = node->exception_type;
+
+    // 関数呼び出し関連
+    cloned->qualified_name = node->qualified_name;
+    cloned->is_qualified_call = node->is_qualified_call;
+    cloned->is_arrow_call = node->is_arrow_call;
+
+    // enum / union 関連
+    cloned->enum_name = node->enum_name;
+    cloned->enum_member = node->enum_member;
+    cloned->enum_definition = node->enum_definition;
+    cloned->union_name = node->union_name;
+    cloned->union_definition = node->union_definition;
+
+    // メンバーアクセスチェーン
+    cloned->member_chain = node->member_chain;
+
+    // impl関連
+    cloned->interface_name = node->interface_name;
+    cloned->struct_name = node->struct_name;
+    clone_ast_vector(node->impl_static_variables,
+                     cloned->impl_static_variables);
+
+    // 関数ポインタ / 配列ポインタ関連
+    cloned->function_pointer_type = node->function_pointer_type;
+    cloned->is_function_pointer = node->is_function_pointer;
+    cloned->function_pointer_value = node->function_pointer_value;
+    cloned->array_pointer_type = node->array_pointer_type;
+    cloned->is_array_pointer = node->is_array_pointer;
+
+    // constポインタ関連
+    cloned->is_pointer_const_qualifier = node->is_pointer_const_qualifier;
+    cloned->is_pointee_const_qualifier = node->is_pointee_const_qualifier;
+
+    // switch / case 関連
+    cloned->switch_expr = clone_ast_node(node->switch_expr.get());
+    clone_ast_vector(node->cases, cloned->cases);
+    cloned->else_body = clone_ast_node(node->else_body.get());
+    clone_ast_vector(node->case_values, cloned->case_values);
+    cloned->case_body = clone_ast_node(node->case_body.get());
+
+    // match文関連
+    cloned->match_expr = clone_ast_node(node->match_expr.get());
+    cloned->match_arms.reserve(node->match_arms.size());
+    for (const auto &arm : node->match_arms) {
+        MatchArm cloned_arm;
+        cloned_arm.pattern_type = arm.pattern_type;
+        cloned_arm.variant_name = arm.variant_name;
+        cloned_arm.bindings = arm.bindings;
+        cloned_arm.body = clone_ast_node(arm.body.get());
+        cloned_arm.enum_type_name = arm.enum_type_name;
+        cloned->match_arms.push_back(std::move(cloned_arm));
+    }
+
+    // 範囲式関連
+    cloned->range_start = clone_ast_node(node->range_start.get());
+    cloned->range_end = clone_ast_node(node->range_end.get());
+
+    // デフォルト引数関連
+    cloned->default_value = clone_ast_node(node->default_value.get());
+    cloned->has_default_value = node->has_default_value;
+    cloned->first_default_param_index = node->first_default_param_index;
+
+    // コンストラクタ/デストラクタ関連
+    cloned->is_constructor = node->is_constructor;
+    cloned->is_destructor = node->is_destructor;
+    cloned->constructor_struct_name = node->constructor_struct_name;
+
+    // async/await関連
+    cloned->is_async_function = node->is_async_function;
+    cloned->is_await_expression = node->is_await_expression;
+
+    // 無名変数 / 無名関数関連
+    cloned->is_discard = node->is_discard;
+    cloned->internal_name = node->internal_name;
+    cloned->is_lambda = node->is_lambda;
+    cloned->is_lambda_call = node->is_lambda_call;
+    cloned->lambda_body = clone_ast_node(node->lambda_body.get());
+    clone_ast_vector(node->lambda_params, cloned->lambda_params);
+    cloned->lambda_return_type = node->lambda_return_type;
+    cloned->lambda_return_type_name = node->lambda_return_type_name;
+
+    // ジェネリクス関連
     cloned->is_generic = node->is_generic;
     cloned->type_parameters = node->type_parameters;
     cloned->type_arguments = node->type_arguments;
+    cloned->generic_base_name = node->generic_base_name;
+    cloned->is_type_parameter = node->is_type_parameter;
+    cloned->type_parameter_name = node->type_parameter_name;
+    cloned->interface_bounds = node->interface_bounds;
+    cloned->is_type_parameter_access = node->is_type_parameter_access;
+    cloned->type_parameter_context = node->type_parameter_context;
 
-    // sizeof関連のフィールドをコピー
-    cloned->sizeof_type_name = node->sizeof_type_name;
-    if (node->sizeof_expr) {
-        cloned->sizeof_expr = clone_ast_node(node->sizeof_expr.get());
-    }
+    // 文字列補間関連
+    clone_ast_vector(node->interpolation_segments,
+                     cloned->interpolation_segments);
+    cloned->is_interpolation_text = node->is_interpolation_text;
+    cloned->is_interpolation_expr = node->is_interpolation_expr;
+    cloned->interpolation_format = node->interpolation_format;
 
-    // キャスト関連のフィールドをコピー (v0.11.0 Fix)
+    // FFI関連（宣言は不変なので共有する）
+    cloned->foreign_module_decl = node->foreign_module_decl;
+    cloned->foreign_function_decl = node->foreign_function_decl;
+
+    // キャスト関連
     cloned->cast_target_type = node->cast_target_type;
     cloned->cast_type_info = node->cast_type_info;
-    if (node->cast_expr) {
-        cloned->cast_expr = clone_ast_node(node->cast_expr.get());
-    }
+    cloned->cast_expr = clone_ast_node(node->cast_expr.get());
 
-    // 子ノードを再帰的にコピー
-    if (node->left) {
-        cloned->left = clone_ast_node(node->left.get());
-    }
-    if (node->right) {
-        cloned->right = clone_ast_node(node->right.get());
-    }
-    if (node->condition) {
-        cloned->condition = clone_ast_node(node->condition.get());
-    }
-    if (node->init_expr) {
-        cloned->init_expr = clone_ast_node(node->init_expr.get());
-    }
-    if (node->lambda_body) {
-        cloned->lambda_body = clone_ast_node(node->lambda_body.get());
-    }
-    if (node->body) {
-        cloned->body = clone_ast_node(node->body.get());
-    }
-
-    // ベクタをコピー
-    for (const auto &stmt : node->statements) {
-        cloned->statements.push_back(clone_ast_node(stmt.get()));
-    }
-    for (const auto &param : node->parameters) {
-        cloned->parameters.push_back(clone_ast_node(param.get()));
-    }
-    for (const auto &arg : node->arguments) {
-        cloned->arguments.push_back(clone_ast_node(arg.get()));
-    }
-    for (const auto &case_node : node->cases) {
-        cloned->cases.push_back(clone_ast_node(case_node.get()));
-    }
+    // new / delete / sizeof 関連
+    cloned->new_type_name = node->new_type_name;
+    cloned->new_type_info = node->new_type_info;
+    cloned->new_array_size = clone_ast_node(node->new_array_size.get());
+    cloned->is_array_new = node->is_array_new;
+    cloned->delete_expr = clone_ast_node(node->delete_expr.get());
+    cloned->sizeof_type_name = node->sizeof_type_name;
+    cloned->sizeof_type_info = node->sizeof_type_info;
+    cloned->sizeof_expr = clone_ast_node(node->sizeof_expr.get());
 
     // return_types配列をコピー
     // v0.13.0 CRITICAL: nodeポインタが破損している可能性がある
@@ -320,6 +460,167 @@ std::unique_ptr<ASTNode> clone_ast_node(const ASTNode *node) {
     return cloned;
 }
 
+// 型名文字列に含まれる型パラメータを置換する
+// "T", "T*", "T[3]", "const T&", "Box<T>", "Box<T>*", "Box_T" のいずれの形式も
+// 受け付け、型パラメータ以外の部分（修飾子・ポインタ・配列次元）は保持する
+static std::string
+substitute_type_string(const std::string &type_name,
+                       const std::map<std::string, std::string> &type_map) {
+    if (type_name.empty()) {
+        return type_name;
+    }
+
+    // Box<T> 形式: 最後の '>' より後ろ（"*", "&", "[3]"）はそのまま残す
+    if (type_name.find('<') != std::string::npos) {
+        size_t gt_pos = type_name.rfind('>');
+        if (gt_pos == std::string::npos) {
+            return type_name;
+        }
+        return substitute_generic_type_name(type_name.substr(0, gt_pos + 1),
+                                            type_map) +
+               type_name.substr(gt_pos + 1);
+    }
+
+    // それ以外: 識別子単位で置換する
+    // （単純な型パラメータ "T" と、正規化済みの "Box_T" 形式の両方）
+    std::string result;
+    size_t i = 0;
+    while (i < type_name.size()) {
+        unsigned char c = static_cast<unsigned char>(type_name[i]);
+        if (std::isalpha(c) || c == '_') {
+            size_t j = i;
+            while (j < type_name.size() &&
+                   (std::isalnum(static_cast<unsigned char>(type_name[j])) ||
+                    type_name[j] == '_')) {
+                ++j;
+            }
+            std::string ident = type_name.substr(i, j - i);
+            auto it = type_map.find(ident);
+            if (it != type_map.end()) {
+                result += it->second;
+            } else if (ident.find('_') != std::string::npos) {
+                result += substitute_normalized_generic_type(ident, type_map);
+            } else {
+                result += ident;
+            }
+            i = j;
+        } else {
+            result += type_name[i++];
+        }
+    }
+    return result;
+}
+
+// 置換後の型名に対応するTypeInfoを求める
+// 基本型・ポインタ・基本型の配列以外（構造体名など）はここでは判別できないので
+// fallback を返す
+static TypeInfo resolve_substituted_type_info(const std::string &type_name,
+                                              TypeInfo fallback) {
+    std::string name = type_name;
+    if (name.rfind("const ", 0) == 0) {
+        name = name.substr(6);
+    }
+    if (name.rfind("unsigned ", 0) == 0) {
+        name = name.substr(9);
+    }
+    while (!name.empty() && (name.back() == '&' || name.back() == ' ')) {
+        name.pop_back();
+    }
+
+    if (name.find('*') != std::string::npos) {
+        return TYPE_POINTER;
+    }
+    size_t bracket_pos = name.find('[');
+    if (bracket_pos != std::string::npos) {
+        TypeInfo base = resolve_substituted_type_info(
+            name.substr(0, bracket_pos), TYPE_UNKNOWN);
+        if (base == TYPE_UNKNOWN || base >= TYPE_ARRAY_BASE) {
+            return fallback;
+        }
+        return static_cast<TypeInfo>(TYPE_ARRAY_BASE + base);
+    }
+
+    if (name == "float")
+        return TYPE_FLOAT;
+    if (name == "double")
+        return TYPE_DOUBLE;
+    if (name == "big")
+        return TYPE_BIG;
+    if (name == "quad")
+        return TYPE_QUAD;
+    if (name == "void" || name == "tiny" || name == "short" || name == "int" ||
+        name == "long" || name == "string" || name == "char" ||
+        name == "bool" || get_global_type_alias_registry().has_alias(name)) {
+        return parse_type_from_string(name);
+    }
+    return fallback;
+}
+
+// 型名フィールドとそれに対応するTypeInfoフィールドを置換する
+// 型パラメータを含まない（置換で変化しない）型名のTypeInfoには触れない
+static void
+substitute_type_field(std::string &type_name, TypeInfo &type_info,
+                      const std::map<std::string, std::string> &type_map) {
+    if (type_name.empty()) {
+        return;
+    }
+    std::string substituted = substitute_type_string(type_name, type_map);
+    if (substituted != type_name) {
+        type_name = substituted;
+        type_info = resolve_substituted_type_info(type_name, type_info);
+    }
+}
+
+// ノードが所有するすべての子ノードを列挙する
+// clone_ast_node() がコピーする子ノードと同じ集合でなければならない
+template <typename F> static void for_each_child_node(ASTNode *node, F &&fn) {
+    for (ASTNode *child : {node->left.get(),
+                           node->right.get(),
+                           node->third.get(),
+                           node->condition.get(),
+                           node->init_expr.get(),
+                           node->update_expr.get(),
+                           node->body.get(),
+                           node->array_index.get(),
+                           node->array_size_expr.get(),
+                           node->try_body.get(),
+                           node->catch_body.get(),
+                           node->finally_body.get(),
+                           node->throw_expr.get(),
+                           node->switch_expr.get(),
+                           node->else_body.get(),
+                           node->case_body.get(),
+                           node->match_expr.get(),
+                           node->range_start.get(),
+                           node->range_end.get(),
+                           node->default_value.get(),
+                           node->lambda_body.get(),
+                           node->cast_expr.get(),
+                           node->new_array_size.get(),
+                           node->delete_expr.get(),
+                           node->sizeof_expr.get()}) {
+        if (child) {
+            fn(child);
+        }
+    }
+    for (const auto *children :
+         {&node->children, &node->parameters, &node->arguments,
+          &node->statements, &node->array_dimensions, &node->array_indices,
+          &node->impl_static_variables, &node->cases, &node->case_values,
+          &node->lambda_params, &node->interpolation_segments}) {
+        for (const auto &child : *children) {
+            if (child) {
+                fn(child.get());
+            }
+        }
+    }
+    for (auto &arm : node->match_arms) {
+        if (arm.body) {
+            fn(arm.body.get());
+        }
+    }
+}
+
 // 型パラメータを実際の型に置換
 void substitute_type_parameters(
     ASTNode *node, const std::map<std::string, std::string> &type_map) {
@@ -327,166 +628,63 @@ void substitute_type_parameters(
         return;
     }
 
-    // 型名の置換
-    if (!node->type_name.empty()) {
-        std::string substituted;
+    // 宣言型・戻り値型・ポインタ基底型
+    substitute_type_field(node->type_name, node->type_info, type_map);
+    node->original_type_name =
+        substitute_type_string(node->original_type_name, type_map);
+    node->return_type_name =
+        substitute_type_string(node->return_type_name, type_map);
+    substitute_type_field(node->pointer_base_type_name, node->pointer_base_type,
+                          type_map);
 
-        // 正規化済みのジェネリック型名 (例: Box_T) または通常のジェネリック型名
-        // (例: Box<T>)
-        if (node->type_name.find('<') != std::string::npos) {
-            // Box<T> 形式
-            substituted =
-                substitute_generic_type_name(node->type_name, type_map);
-            if (substituted != node->type_name) {
-                node->type_name = substituted;
-                // v0.11.1: 正規化を削除 - Box<int>のまま保持
-                // 構造体定義が Box<int> という名前で登録されているため
-                // マングリングすると型の不一致が起こる
-            }
-        } else if (node->type_name.find('_') != std::string::npos) {
-            // Box_T 形式（既に正規化済み）
-            substituted =
-                substitute_normalized_generic_type(node->type_name, type_map);
-            if (substituted != node->type_name) {
-                node->type_name = substituted;
-            }
-        } else {
-            // 単純な型パラメータ (例: T)
-            substituted =
-                substitute_generic_type_name(node->type_name, type_map);
-            if (substituted != node->type_name) {
-                node->type_name = substituted;
-            }
-        }
+    // 配列の要素型（T[3] a など）
+    if (node->type_info >= TYPE_ARRAY_BASE &&
+        node->array_type_info.is_array()) {
+        node->array_type_info.base_type =
+            static_cast<TypeInfo>(node->type_info - TYPE_ARRAY_BASE);
+    }
+    substitute_type_field(node->array_pointer_type.element_type_name,
+                          node->array_pointer_type.element_type, type_map);
 
-        // 基本型の場合のみtype_infoを更新
-        if (!node->type_name.empty() &&
-            node->type_name.find('<') == std::string::npos &&
-            node->type_name.find('_') == std::string::npos) {
-            node->type_info = parse_type_from_string(node->type_name);
-        }
+    // 関数ポインタ型
+    substitute_type_field(node->function_pointer_type.return_type_name,
+                          node->function_pointer_type.return_type, type_map);
+    for (size_t i = 0;
+         i < node->function_pointer_type.param_type_names.size() &&
+         i < node->function_pointer_type.param_types.size();
+         ++i) {
+        substitute_type_field(node->function_pointer_type.param_type_names[i],
+                              node->function_pointer_type.param_types[i],
+                              type_map);
     }
 
-    // 戻り値型の置換
-    if (!node->return_type_name.empty()) {
-        std::string substituted;
-        if (node->return_type_name.find('<') != std::string::npos) {
-            substituted =
-                substitute_generic_type_name(node->return_type_name, type_map);
-            if (substituted != node->return_type_name) {
-                node->return_type_name = substituted;
-                // v0.11.1: 正規化を削除
-            }
-        } else if (node->return_type_name.find('_') != std::string::npos) {
-            substituted = substitute_normalized_generic_type(
-                node->return_type_name, type_map);
-            if (substituted != node->return_type_name) {
-                node->return_type_name = substituted;
-            }
-        } else {
-            substituted =
-                substitute_generic_type_name(node->return_type_name, type_map);
-            if (substituted != node->return_type_name) {
-                node->return_type_name = substituted;
-            }
-        }
+    // sizeof(T) / (T)expr / new T / ラムダの戻り値型
+    substitute_type_field(node->sizeof_type_name, node->sizeof_type_info,
+                          type_map);
+    substitute_type_field(node->cast_target_type, node->cast_type_info,
+                          type_map);
+    substitute_type_field(node->new_type_name, node->new_type_info, type_map);
+    substitute_type_field(node->lambda_return_type_name,
+                          node->lambda_return_type, type_map);
+
+    // ネストしたジェネリック呼び出しの型引数: ident<T>(v) -> ident<int>(v)
+    for (auto &type_argument : node->type_arguments) {
+        type_argument = substitute_type_string(type_argument, type_map);
     }
 
-    // ポインタベース型の置換
-    if (!node->pointer_base_type_name.empty()) {
-        std::string substituted;
-        if (node->pointer_base_type_name.find('<') != std::string::npos) {
-            substituted = substitute_generic_type_name(
-                node->pointer_base_type_name, type_map);
-            if (substituted != node->pointer_base_type_name) {
-                node->pointer_base_type_name = substituted;
-                // v0.11.1: 正規化を削除
-            }
-        } else if (node->pointer_base_type_name.find('_') !=
-                   std::string::npos) {
-            substituted = substitute_normalized_generic_type(
-                node->pointer_base_type_name, type_map);
-            if (substituted != node->pointer_base_type_name) {
-                node->pointer_base_type_name = substituted;
-            }
-        } else {
-            substituted = substitute_generic_type_name(
-                node->pointer_base_type_name, type_map);
-            if (substituted != node->pointer_base_type_name) {
-                node->pointer_base_type_name = substituted;
-            }
-        }
-
-        // 基本型の場合のみtype_infoを更新
-        if (!node->pointer_base_type_name.empty() &&
-            node->pointer_base_type_name.find('<') == std::string::npos &&
-            node->pointer_base_type_name.find('_') == std::string::npos) {
-            node->pointer_base_type =
-                parse_type_from_string(node->pointer_base_type_name);
-        }
-    }
-
-    // sizeof型名の置換
-    if (!node->sizeof_type_name.empty()) {
-        std::string substituted =
-            substitute_generic_type_name(node->sizeof_type_name, type_map);
-        if (substituted != node->sizeof_type_name) {
-            node->sizeof_type_name = substituted;
-        }
-    }
-
-    // sizeof式の処理
-    if (node->sizeof_expr) {
-        substitute_type_parameters(node->sizeof_expr.get(), type_map);
-    }
-
-    // キャスト式の処理 (v0.11.0 Fix: QueueNode<T>* キャストのサポート)
-    if (node->cast_expr) {
-        substitute_type_parameters(node->cast_expr.get(), type_map);
-    }
-
-    // キャストターゲット型の置換 (例: QueueNode<T>* -> QueueNode<int>*)
-    if (!node->cast_target_type.empty()) {
-        std::string substituted =
-            substitute_generic_type_name(node->cast_target_type, type_map);
-        if (substituted != node->cast_target_type) {
-            node->cast_target_type = substituted;
-        }
+    // enum / match / catch の型名: Option<T>::Some(v), catch (T e)
+    node->enum_name = substitute_type_string(node->enum_name, type_map);
+    node->exception_type =
+        substitute_type_string(node->exception_type, type_map);
+    for (auto &arm : node->match_arms) {
+        arm.enum_type_name =
+            substitute_type_string(arm.enum_type_name, type_map);
     }
 
     // 子ノードを再帰的に処理
-    if (node->left) {
-        substitute_type_parameters(node->left.get(), type_map);
-    }
-    if (node->right) {
-        substitute_type_parameters(node->right.get(), type_map);
-    }
-    if (node->condition) {
-        substitute_type_parameters(node->condition.get(), type_map);
-    }
-    if (node->init_expr) {
-        substitute_type_parameters(node->init_expr.get(), type_map);
-    }
-    if (node->lambda_body) {
-        substitute_type_parameters(node->lambda_body.get(), type_map);
-    }
-    if (node->body) {
-        substitute_type_parameters(node->body.get(), type_map);
-    }
-
-    // ベクタ内のノードを処理
-    for (const auto &stmt : node->statements) {
-        substitute_type_parameters(stmt.get(), type_map);
-    }
-    for (const auto &param : node->parameters) {
-        substitute_type_parameters(param.get(), type_map);
-    }
-    for (const auto &arg : node->arguments) {
-        substitute_type_parameters(arg.get(), type_map);
-    }
-    for (const auto &case_node : node->cases) {
-        substitute_type_parameters(case_node.get(), type_map);
-    }
+    for_each_child_node(node, [&type_map](ASTNode *child) {
+        substitute_type_parameters(child, type_map);
+    });
 }
 
 // ジェネリック関数をインスタンス化
